@@ -131,6 +131,7 @@ class Disp:
 class World:
     def __init__(self, types=("A", "B"), start=1000.0, probing=True):
         self.probing = probing
+        self.closing = False
         self.loop = VLoop(start=start)
         self.clock = VClock(self.loop)
         self.clock.__enter__()
@@ -171,6 +172,8 @@ class World:
         return "foreign:" + type(e).__name__ + ":" + str(e)[:80]
 
     async def gate(self, name):
+        if self.closing:
+            raise asyncio.CancelledError()
         fut = self.loop.create_future()
         self.gates[name] = fut
         try:
@@ -302,6 +305,8 @@ class World:
                     self.events.append((name, "try", "return"))
                 except BaseException as e:  # noqa: BLE001  (user code that catches everything)
                     self.events.append((name, "try", self.classify(e)))
+                    if self.closing:
+                        raise
             elif k == "leave":
                 how = op[1]
                 if how == "return":
@@ -363,6 +368,7 @@ class World:
         return "done" if e is None else "failed:" + self.classify(e)
 
     def close(self):
+        self.closing = True
         try:
             for g in list(self.gates.values()):
                 if not g.done():
